@@ -63,14 +63,16 @@ type SeedSpec struct {
 }
 
 type SymStep struct {
-	Kind   string          `json:"kind"` // req tick lock unlock updpw startconfirm seed
-	Req    *SymReq         `json:"req,omitempty"`
-	D      int64           `json:"d,omitempty"`
-	U      string          `json:"u,omitempty"`
-	PW     *Desc           `json:"pw,omitempty"`
-	Seed   *SeedSpec       `json:"seed,omitempty"`
-	Faults map[int]string  `json:"faults,omitempty"`
-	PA     *ProviderAnswer `json:"pa,omitempty"`
+	Kind   string            `json:"kind"` // req tick lock unlock updpw startconfirm seed
+	Req    *SymReq           `json:"req,omitempty"`
+	D      int64             `json:"d,omitempty"`
+	U      string            `json:"u,omitempty"`
+	P      string            `json:"p,omitempty"` // the account named U has this PID (accounts not created by the harness)
+	PW     *Desc             `json:"pw,omitempty"`
+	Seed   *SeedSpec         `json:"seed,omitempty"`
+	Jar    map[string]string `json:"jar,omitempty"`
+	Faults map[int]string    `json:"faults,omitempty"`
+	PA     *ProviderAnswer   `json:"pa,omitempty"`
 }
 
 type Account struct {
@@ -404,6 +406,21 @@ func (r *Run) seedUser(s *SeedSpec) (*User, []string) {
 	return u, nil
 }
 
+func (r *Run) isStoredField(v string) bool {
+	if v == "" {
+		return false
+	}
+	for _, k := range r.w.st.keys {
+		u := r.w.st.users[k]
+		for _, f := range []string{u.Password, u.ConfirmSelector, u.ConfirmVerifier, u.RecoverSelector, u.RecoverVerifier, u.OTPs, u.RecoveryCodes} {
+			if f != "" && strings.Contains(f, v) {
+				return true
+			}
+		}
+	}
+	return false
+}
+
 func (r *Run) pids() []string {
 	var out []string
 	seen := map[string]bool{}
@@ -458,6 +475,9 @@ func (r *Run) exec(s SymStep) StepRec {
 		r.steps = append(r.steps, rec)
 		return rec
 	}
+	if s.P != "" {
+		r.account(s.U).PID = s.P
+	}
 	mails0, sms0, log0 := len(w.mail.mails), len(w.sms.msgs), len(w.log.lines)
 	w.be.reset(s.Faults)
 	w.rnd.take()
@@ -486,7 +506,9 @@ func (r *Run) exec(s SymStep) StepRec {
 			if kv[0] == "code" {
 				code = kv[1]
 			}
-			if kv[0] == "password" {
+			// a typed password is a secret when it is (or becomes) an account's password; a stored
+			// field replayed as a password is not
+			if kv[0] == "password" && (q.Route == "Register" || q.Route == "RecoverEnd") && !r.isStoredField(kv[1]) {
 				r.k.secret(kv[1], "password")
 			}
 		}
@@ -543,6 +565,16 @@ func (r *Run) exec(s SymStep) StepRec {
 		w.sess.jars[browser] = jar{}
 		w.sess.mu.Unlock()
 		rec.Action = &Action{Kind: "setjar", PID: hx(browser), PW: "session", Jar: map[string]string{}}
+	case "setsess": // the browser's session is exactly this (application-level login, expiry, ...)
+		browser = s.U
+		j := jar{}
+		for k, v := range s.Jar {
+			j[k] = v
+		}
+		w.sess.mu.Lock()
+		w.sess.jars[browser] = j
+		w.sess.mu.Unlock()
+		rec.Action = &Action{Kind: "setjar", PID: hx(browser), PW: "session", Jar: canonJar(w, j)}
 	case "copycookie": // a cookie jar is copied to another browser (theft)
 		browser = s.U
 		src := w.cook.get(s.PW.V)
